@@ -27,6 +27,8 @@ def labels_for(ctx, spec):
         ctx.label("adjacent")
     if rm.has_self_overlap(bl):
         ctx.label("overlap")
+        if any(a[0] <= b[0] and b[1] <= a[1] and a != b for a in ne for b in ne):
+            ctx.label("nested_overlap")
     if spec.get("shift"):
         ctx.label("shifted")
     if k >= 2 or spec["strand"] == "-" or len(bl) != k or rm.has_self_overlap(bl):
@@ -80,7 +82,7 @@ def check_points(spec, ctx):
             except REJECT:
                 pass
     # structural attributes used by every caller
-    ne = rm.sorted_blocks(bl)
+    ne = rm.canonical_sort(rm.sorted_blocks(bl), spec["strand"])
     if ne:
         ctx.eq("start_attr", loc.start, min(s for s, _ in bl))
         ctx.eq("end_attr", loc.end, max(e for _, e in bl))
@@ -97,7 +99,7 @@ def expected_subblocks(bl, strand, a, b):
     """blocks (ascending coordinate order) of the image of relative [a,b)"""
     pos = rm.positions(bl, strand)[a:b]
     # split into runs following the block structure: walk blocks in scan order
-    ne = rm.sorted_blocks(bl)
+    ne = rm.canonical_sort(rm.sorted_blocks(bl), strand)
     order = ne if strand != "-" else list(reversed(ne))
     out = []
     off = 0
@@ -124,7 +126,7 @@ def check_rel_interval(spec, ctx):
     pairs = spec.get("pairs")
     if pairs is None:
         pairs = [(a, b) for a in range(n + 1) for b in range(a, n + 1)]
-    ne = rm.sorted_blocks(bl)
+    ne = rm.canonical_sort(rm.sorted_blocks(bl), strand)
     bounds = set()
     off = 0
     for s, e in (ne if strand != "-" else list(reversed(ne))):
@@ -161,7 +163,7 @@ def check_rel_interval(spec, ctx):
             # the image is representable iff re-sorting its blocks canonically (for either result strand) keeps their order
             representable = rm.canonical_sort(asc, "+") == asc and rm.canonical_sort(asc, "-") == asc
             if got != want:
-                if sorted(got) == sorted(want) and not representable:
+                if sorted(got) == sorted(want) and (not representable or overlap):
                     # the 5'->3' order of the image cannot be represented (blocks are re-sorted by start)
                     ctx.fail("rel_interval_order_unrepresentable", {"a": a, "b": b, "rs": rs, "got": got, "want": want})
                 else:
@@ -283,18 +285,18 @@ def check_wrappers(spec, ctx):
 
 def strat_points(tier):
     big = tier == "thorough"
-    return S.location_spec(max_k=6 if big else 5, allow_overlap=True, max_len=12 if big else 8)
+    return S.location_spec(max_k=6 if big else 5, allow_overlap=True, allow_nested=True, max_len=12 if big else 8)
 
 
 def strat_rel_interval(tier):
     big = tier == "thorough"
-    return S.location_spec(max_k=6 if big else 4, allow_overlap=True, max_len=8 if big else 6)
+    return S.location_spec(max_k=6 if big else 4, allow_overlap=True, allow_nested=True, max_len=8 if big else 6)
 
 
 @st.composite
 def strat_rel_location(draw, tier="quick"):
     big = tier == "thorough"
-    L = draw(S.location_spec(max_k=5 if big else 4, allow_overlap=draw(st.integers(0, 5)) == 0, shift_prob=0,
+    L = draw(S.location_spec(max_k=5 if big else 4, allow_overlap=draw(st.integers(0, 5)) == 0, allow_nested=True, shift_prob=0,
                              strands=["+", "-", "+", "-", "+", "-", "."]))
     lo = max(0, min(b[0] for b in L["blocks"]) - 3)
     hi = max(b[1] for b in L["blocks"]) + 3
@@ -331,8 +333,8 @@ def strat_wrappers(draw, tier="quick"):
 
 
 def enum_small(tier, shard, nshards):
-    """all staggered layouts with <=3 blocks over a 7-base (quick) / 8-base (thorough) genome, both strands"""
-    N = 7 if tier == "quick" else 8
+    """ALL layouts (incl. nested blocks and ties on start) with <=3 blocks over a 6-base (quick) / 7-base (thorough) genome, both strands"""
+    N = 6 if tier == "quick" else 7
     allb = [(s, e) for s in range(N + 1) for e in range(s, N + 1)]
     i = 0
     for k in (1, 2, 3):
@@ -340,8 +342,7 @@ def enum_small(tier, shard, nshards):
             ne = [b for b in combo if b[1] > b[0]]
             if not ne:
                 continue
-            ok = all(ne[j][0] < ne[j + 1][0] and ne[j][1] < ne[j + 1][1] for j in range(len(ne) - 1))
-            if not ok:
+            if len(set(ne)) < len(ne):
                 continue
             if any(b[0] == b[1] and any(x[0] < b[0] < x[1] for x in ne) for b in combo):
                 continue
@@ -374,7 +375,7 @@ PROP = Prop(
     pid="C01",
     legs=[
         Leg("point_maps", check_points, strategy=strat_points, examples=EX, n_quick=2500, n_thorough=25000,
-            must_hit=["minus&k>=2", "empty_block", "adjacent", "overlap", "block_boundary_position", "shifted"],
+            must_hit=["minus&k>=2", "empty_block", "adjacent", "overlap", "nested_overlap", "block_boundary_position", "shifted"],
             rule="random staggered layouts (k<=5/6, empty/adjacent/overlapping blocks, shuffled constructor order, optional 2^31 shift) x both strands; every relative position and every parent position in span+-2"),
         Leg("rel_interval", check_rel_interval, strategy=strat_rel_interval, examples=EX[:4], n_quick=600, n_thorough=4000,
             must_hit=["subinterval_crosses_boundary", "last_base_of_minus_block", "zero_length_request"],
@@ -385,12 +386,12 @@ PROP = Prop(
         Leg("interval_wrappers", check_wrappers, strategy=strat_wrappers, n_quick=600, n_thorough=5000,
             rule="FeatureInterval coordinate wrappers over random layouts: every position, one sub-interval, one chromosome window"),
         Leg("small_exhaustive", check_small, enumerate=enum_small, exhaustive=True, shards_quick=8, shards_thorough=16,
-            rule="ALL staggered layouts of <=3 blocks (incl. empty blocks at boundaries) over a 7-base (quick) / 8-base (thorough) genome x both strands: every position and every sub-interval"),
+            rule="ALL layouts of <=3 blocks (nested, tied, staggered, adjacent, with empty blocks at boundaries) over a 6-base (quick) / 7-base (thorough) genome x both strands: every position and every sub-interval"),
     ],
     rule="Non-trivial: >=2 non-empty blocks, or minus strand, or an empty/overlapping block present. Distinct = canonical JSON of the spec. "
          "Oracle: PosModel (list of parent positions in 5'->3' order computed from the block list with plain ints).",
     assumptions=[
-        "layouts have strictly increasing starts and ends among non-empty blocks (nested blocks / ties on start have no canonical 5'->3' order and are not generated)",
+        "5'->3' order of self-overlapping (staggered, nested, tied) blocks is the documented canonical block order: ascending start, ties by end ascending on plus / descending on minus",
         "empty blocks are only placed at coordinates not strictly inside a non-empty block",
         "a zero-length sub-interval request may be refused with a documented exception",
     ],
